@@ -282,6 +282,11 @@ loop:
 	case Shutdown:
 		return errorx.ErrEngineShutdown
 	}
+	if !c.opened {
+		// The connection was closed inside OnTraffic (EventLoop.Close or a failed Write),
+		// its descriptor is gone and the number may already belong to somebody else.
+		return nil
+	}
 	_, _ = c.inboundBuffer.Write(c.buffer)
 	c.buffer = c.buffer[:0]
 
